@@ -187,4 +187,15 @@ theorem reach_zero {ctx : Ctx} {env : Env} {s : St} {e : Expr} {p : Path} {f' : 
     (h : Reach ctx 0 env s e p f' env' s' x) : f' = 0 := by
   cases h; rfl
 
+/-! ### a concrete enum context for the counterexamples of Props/C13 -/
+
+def exCtx : Ctx :=
+  { enums := [{ name := "E", items := [{ name := "one", value := 0, fields := none }, { name := "two", value := 1, fields := none }] }] }
+/-- `match E::one { E::one -> E::two; E::two -> E::one; }` -/
+def exFlip : Expr := .matchE (.enumVal "E" "one") [.item "E" "one" (.enumVal "E" "two"), .item "E" "two" (.enumVal "E" "one")]
+
+theorem exCtx_one : exCtx.findItem "E" "one" = some (0, { name := "one", value := 0, fields := none }) := by rfl
+theorem exCtx_two : exCtx.findItem "E" "two" = some (1, { name := "two", value := 1, fields := none }) := by rfl
+theorem exCtx_rec : exCtx.enumIsRec "E" = false := by rfl
+
 end Never.Src.Tail
